@@ -227,10 +227,10 @@ def c03_c(ctx):
     good = None
     for r in ctx.stmts(oc, ast.Raise):
         gs = ctx.guards(oc, r)
-        flag = [(t, pol) for (t, pol, _) in gs if contains(t, "'_stochastic'")]
-        if not flag or not all(pol and (match(t, pattern("'_stochastic' in _")) is not None or
-                                        match(t, pattern("_['_stochastic']")) is not None)
-                               for (t, pol) in flag):
+        flag = [(t, pol) for (t, pol, _) in gs if pol and (
+            match(t, pattern("'_stochastic' in _")) is not None or
+            match(t, pattern("_['_stochastic']")) is not None)]
+        if not flag:
             continue
         # inside: for ancestor in nx.ancestors(compiled_net, observed_name(node)): for node in
         # uses_observed
@@ -650,9 +650,8 @@ def c03_h(ctx):
                               is not None)
         ctx.check(okd, oc, 'edge data copied', '**source_net[parent][node]',
                   'the edge parameter of the original edge is not carried over', fn=oc, node=e)
-        g = [(t, pol) for (t, pol, _) in ctx.guards(oc, e) if contains(t, "_['_stochastic']")]
-        okg = bool(g) and all((t[0] == 'unary' and t[1] == 'not' and pol) or
-                              (t[0] != 'unary' and not pol) for (t, pol) in g)
+        okg = any(pol is False and match(t, pattern("_['_stochastic']")) is not None
+                  for (t, pol, _) in ctx.guards(oc, e))
         ctx.check(okg, oc, 'stochastic nodes keep no observed parents',
                   'edges copied only when the node is not stochastic',
                   'edges are copied for stochastic nodes as well (their twin must be given, not '
